@@ -29,6 +29,7 @@ type mcVec struct {
 	Slotc int    `json:"slotc"`
 	Valc  int    `json:"valc"`
 	Warm  bool   `json:"warm"`
+	Slack int    `json:"slack"`
 }
 type mcExp struct {
 	Err   bool  `json:"err"`
@@ -127,6 +128,30 @@ func mcRun(l *mcLine) (out []jcMismatch) {
 		}
 		if !x.Valid && !invalid {
 			miss("mc.fork", "%s must be an invalid instruction before Cancun, got %v", desc, res.Err)
+		}
+	case "tgas":
+		a := evmx.NewAsm()
+		switch v.Op {
+		case "TSTORE":
+			a.Push(7).Push(1).Op(vm.TSTORE, vm.STOP)
+		case "TLOAD":
+			a.Push(1).Op(vm.TLOAD, vm.POP, vm.STOP)
+		case "MCOPY":
+			a.Push(32).Push(0).Push(0).Op(vm.MCOPY, vm.STOP)
+		}
+		e := evmx.NewEnv(evmx.EnvOpts{Fork: "Cancun"})
+		e.State.SetCode(jcAcct, a.Bytes())
+		e.State.SetNonce(jcAcct, 1)
+		to := jcAcct
+		e.Prepare(&to)
+		e.EVM.IsExecuteJP = false
+		limit := uint64(x.Gas + v.Slack)
+		res := e.Call(e.Origin, jcAcct, nil, limit, big.NewInt(0))
+		desc := fmt.Sprintf("a frame given %d gas for a %s program that costs %d", limit, v.Op, x.Gas)
+		if res.Panic != "" || res.Err != nil {
+			miss("mc.gas", "%s failed: %v %s", desc, res.Err, res.Panic)
+		} else if limit-res.Left != uint64(x.Gas) {
+			miss("mc.gas", "%s used %d", desc, limit-res.Left)
 		}
 	case "tfee":
 		a := evmx.NewAsm()
